@@ -43,13 +43,13 @@ theorem rdVqs_mem {s : Core} (h : IdsOK s) {v : AView} (hv : v ∈ s.views) :
     rdVqs s (v.a.id : Int) = v.vqs := by
   simp [rdVqs, view_lookup h hv]
 
-theorem selling_loop1 (s : Core) (vs : List AView) (count : Int) (msg : String) (st : GStore) :
-    SellingPoolReserveAmountInvariant.loop1 s.bank (vs.map (·.a)) count msg st =
-      Loop.done (count + ((vs.filter (fun v => !sellingInvHolds s v)).length : Int), msg, st) := by
-  induction vs generalizing count msg with
+theorem selling_loop1 (s : Core) (vs : List AView) (count : Int) (st : GStore) :
+    SellingPoolReserveAmountInvariant.loop1 s.bank (vs.map (·.a)) count st =
+      Loop.done (count + ((vs.filter (fun v => !sellingInvHolds s v)).length : Int), st) := by
+  induction vs generalizing count with
   | nil => simp [SellingPoolReserveAmountInvariant.loop1]
   | cons v vs ih =>
-    simp only [List.map_cons, SellingPoolReserveAmountInvariant.loop1, String.append_empty,
+    simp only [List.map_cons, SellingPoolReserveAmountInvariant.loop1,
       sellingCoin_denom, sellingCoin_amt, decide_true, Bool.true_and]
     by_cases hst : v.a.status = Status.started
     · by_cases hle : v.a.sellAmt ≤ s.bank (Addr.sell v.a.id) v.a.sellDenom
@@ -67,15 +67,15 @@ theorem paying_loop2 (a : Auction) (l : List Bid) (acc : Coin) (st : GStore) :
       List.map_cons, List.sum_cons, Int.add_assoc]
 
 theorem paying_loop1 (s : Core) (h : IdsOK s) (err : Bool) (vs : List AView)
-    (hvs : ∀ v ∈ vs, v ∈ s.views) (count : Int) (msg : String) :
-    PayingPoolReserveAmountInvariant.loop1 s.bank err (vs.map (·.a)) count msg (storeOf s) =
-      Loop.done (count + ((vs.filter (fun v => !payingInvHolds s v)).length : Int), msg, storeOf s) := by
-  induction vs generalizing count msg with
+    (hvs : ∀ v ∈ vs, v ∈ s.views) (count : Int) :
+    PayingPoolReserveAmountInvariant.loop1 s.bank err (vs.map (·.a)) count (storeOf s) =
+      Loop.done (count + ((vs.filter (fun v => !payingInvHolds s v)).length : Int), storeOf s) := by
+  induction vs generalizing count with
   | nil => simp [PayingPoolReserveAmountInvariant.loop1]
   | cons v vs ih =>
     have hv : v ∈ s.views := hvs v (by simp)
-    have ih' := fun c m => ih (fun w hw => hvs w (by simp [hw])) c m
-    simp only [List.map_cons, PayingPoolReserveAmountInvariant.loop1, String.append_empty,
+    have ih' := fun c => ih (fun w hw => hvs w (by simp [hw])) c
+    simp only [List.map_cons, PayingPoolReserveAmountInvariant.loop1,
       tie_GetBidsByAuctionId, rdBids_mem h hv, paying_loop2, decide_true, Bool.true_and]
     by_cases hst : v.a.status = Status.started
     · by_cases hle : (v.bids.map (·.toPaying v.a.payDenom)).sum ≤ s.bank (Addr.pay v.a.id) v.a.payDenom
@@ -96,15 +96,15 @@ theorem vesting_loop2 (l : List VQ) (acc : Coin) (st : GStore) :
     · simp [VestingPoolReserveAmountInvariant.loop2, ih, hq]
 
 theorem vesting_loop1 (s : Core) (h : IdsOK s) (err : Bool) (vs : List AView)
-    (hvs : ∀ v ∈ vs, v ∈ s.views) (count : Int) (msg : String) :
-    VestingPoolReserveAmountInvariant.loop1 s.bank err (vs.map (·.a)) count msg (storeOf s) =
-      Loop.done (count + ((vs.filter (fun v => !vestingInvHolds s v)).length : Int), msg, storeOf s) := by
-  induction vs generalizing count msg with
+    (hvs : ∀ v ∈ vs, v ∈ s.views) (count : Int) :
+    VestingPoolReserveAmountInvariant.loop1 s.bank err (vs.map (·.a)) count (storeOf s) =
+      Loop.done (count + ((vs.filter (fun v => !vestingInvHolds s v)).length : Int), storeOf s) := by
+  induction vs generalizing count with
   | nil => simp [VestingPoolReserveAmountInvariant.loop1]
   | cons v vs ih =>
     have hv : v ∈ s.views := hvs v (by simp)
-    have ih' := fun c m => ih (fun w hw => hvs w (by simp [hw])) c m
-    simp only [List.map_cons, VestingPoolReserveAmountInvariant.loop1, String.append_empty,
+    have ih' := fun c => ih (fun w hw => hvs w (by simp [hw])) c
+    simp only [List.map_cons, VestingPoolReserveAmountInvariant.loop1,
       tie_GetVestingQueuesByAuctionId, rdVqs_mem h hv, vesting_loop2, decide_true, Bool.true_and]
     by_cases hst : v.a.status = Status.vesting
     · by_cases hle : ((v.vqs.filter (fun q => !q.released)).map (·.amt)).sum ≤ s.bank (Addr.vest v.a.id) v.a.payDenom
